@@ -154,7 +154,11 @@ void run_bytes(Ctx &c, const Bytes &in, int oracle)
 		if (accepted) {
 			c.cls("accepted");
 			// truncating an accepted header at any point never yields success
+			// (every point for ordinary headers; for the rare header of many kilobytes: the first and last 300
+			// points and every 509th in between - each trial decodes the whole prefix)
 			for (int m = 0; m < r && !c.failed; m++) {
+				if (r > 1000 && m >= 300 && m < r - 300 && m % 509 != 0)
+					continue;
 				Bytes pre(in.begin(), in.begin() + m);
 				Bytes img2(S);
 				int r2 = aw_decode(pre.data(), (unsigned)m, img2.data());
@@ -246,8 +250,21 @@ Bytes structured(Tape &t, Ctx &c)
 	bool fact = fmt_kind == 1 ? t.weighted({ 1, 5 }) == 1 : t.weighted({ 5, 1 }) == 1;
 	uint32_t channels = 1 + t.choose(4), bytes = t.flip() ? 2 : 4, rate = t.flip() ? 44100 : t.choose(200000);
 	uint32_t frames = t.choose(1000);
+	// now and then an extension the decoder does not understand, of 255 ... 70000 bytes, supplied in full (the header
+	// then exceeds 2^8 / 2^16 bytes)
+	bool bigext = c.feat(2) && t.weighted({ 30, 1 }) == 1;
+	if (bigext) {
+		static const uint32_t EXT[] = { 255, 256, 257, 300, 4096, 65535, 65536, 65537, 70000 };
+		fmt_size = 18 + EXT[t.choose(sizeof EXT / sizeof *EXT)];
+		cb = t.choose(3) == 0 ? 0 : t.choose(65536);
+		if (cb == 22)
+			cb = 23;
+		c.cls("unknown-extension-of-255-bytes-or-more");
+		if (fmt_size - 18 >= 65535)
+			c.cls("unknown-extension-of-65535-bytes-or-more");
+	}
 	uint32_t skip = (fmt_size >= 18 && cb != 22) ? fmt_size - 18 : 0;
-	uint32_t skip_emitted = skip > 64 ? t.choose(65) : skip; // a huge declared extension cannot be supplied in full
+	uint32_t skip_emitted = bigext ? skip : skip > 64 ? t.choose(65) : skip; // a huge declared extension is otherwise not supplied in full
 	uint32_t hdr = 12 + 8 + 16 + (fmt_size >= 18 ? 2 + (cb == 22 ? 22 : skip_emitted) : 0) + (fact ? 12 : 0) + 8;
 	id(0);
 	put32(b, pick32(t, hdr - 8 + frames * channels * bytes));
@@ -267,7 +284,10 @@ Bytes structured(Tape &t, Ctx &c)
 			put32(b, t.u32());
 			for (int i = 0; i < 16; i++)
 				b.push_back((uint8_t)t.choose(256));
-		} else
+		} else if (bigext)
+			for (uint32_t i = 0; i < skip_emitted; i++)
+				b.push_back((uint8_t)(i * 31 + 7));
+		else
 			for (uint32_t i = 0; i < skip_emitted; i++)
 				b.push_back((uint8_t)(t.flip() ? 0 : 1 + t.choose(255)));
 	}
